@@ -143,14 +143,16 @@ fn initial(o: Opt, full: bool) -> BoxedStrategy<String> {
 	(
 		gen::opt_of(gen::scheme(), 5),
 		gen::authority(o),
-		gen::segments(o),
+		// the empty path (authority at the very end of the buffer) must be frequent
+		prop_oneof![1 => Just(vec![]), 3 => gen::segments(o)],
+		any::<bool>(),
 		gen::opt_of(gen::query(o), 4),
 		gen::opt_of(gen::fragment(o), 4),
 	)
-		.prop_map(move |(scheme, authority, segs, query, fragment)| {
+		.prop_map(move |(scheme, authority, segs, abs, query, fragment)| {
 			let p = gen::repair(
 				Parts { scheme, authority: Some(authority), path: String::new(), query, fragment },
-				true,
+				abs,
 				segs,
 				full,
 			);
@@ -233,6 +235,11 @@ impl Prop for C11 {
 		cx.class_if(!case.full, "reference");
 		cx.class_if(!case.initial.is_ascii(), "non-ascii");
 		cx.class_if(split(&case.initial).scheme.is_none(), "no-scheme");
+		{
+			let p = split(&case.initial);
+			cx.class_if(p.path.is_empty() && p.query.is_none() && p.fragment.is_none(), "authority-at-end-of-buffer");
+			cx.class_if(p.path.is_empty(), "empty-path");
+		}
 		Ok(())
 	}
 
@@ -244,6 +251,8 @@ impl Prop for C11 {
 			("removal", 10_000),
 			("ip-literal", 10_000),
 			("no-scheme", 10_000),
+			("authority-at-end-of-buffer", 5_000),
+			("empty-path", 15_000),
 			("non-ascii", 5_000),
 		]
 	}
